@@ -24,12 +24,16 @@ import (
 	configv1alpha1 "github.com/furiko-io/furiko/apis/config/v1alpha1"
 	execution "github.com/furiko-io/furiko/apis/execution/v1alpha1"
 	"github.com/furiko-io/furiko/pkg/execution/controllers/croncontroller"
+	"github.com/furiko-io/furiko/pkg/execution/controllers/jobconfigcontroller"
+	"github.com/furiko-io/furiko/pkg/execution/controllers/jobqueuecontroller"
 	"github.com/furiko-io/furiko/pkg/execution/mutation"
 	"github.com/furiko-io/furiko/pkg/execution/stores/activejobstore"
+	jobutil "github.com/furiko-io/furiko/pkg/execution/util/job"
 	"github.com/furiko-io/furiko/pkg/execution/util/jobconfig"
 	"github.com/furiko-io/furiko/pkg/execution/validation"
 	"github.com/furiko-io/furiko/pkg/runtime/reconciler"
 	"github.com/furiko-io/furiko/pkg/utils/ktime"
+	"k8s.io/client-go/tools/record"
 
 	sw "verifharness/simworld"
 )
@@ -84,6 +88,8 @@ type CJC struct {
 	Ls   int    `json:"ls"` // status.lastScheduled, -1 none
 	Pol  string `json:"pol"`
 	MaxC int    `json:"maxc"`
+	StA  int    `json:"sta"` // status.active
+	StQ  int    `json:"stq"` // status.queued
 }
 type CJob struct {
 	Name    string `json:"name"`
@@ -95,6 +101,8 @@ type CJob struct {
 	NameOk  bool   `json:"nameok"`  // name = <jobconfig name>-<unix of the schedule time> (independent formula)
 	Started bool   `json:"started"`
 	Term    bool   `json:"term"`
+	Pol     string `json:"pol"` // spec.startPolicy.concurrencyPolicy
+	Adm     bool   `json:"adm"` // carries the admission-error annotation (refused by the queue controller)
 }
 type CFire struct {
 	Jc    string `json:"jc"`
@@ -125,6 +133,9 @@ type CState struct {
 	Quiet   bool           `json:"quiet"`
 	Booted  bool           `json:"booted"`
 	Mutated []string       `json:"mutated"` // informer-cache objects the controller wrote into
+	System  bool           `json:"system"`
+	XReady  []string       `json:"xready"` // ready keys of the composed controllers, as ctrl:key
+	XBusy   []string       `json:"xbusy"`  // composed controllers with a pass in flight
 }
 type CLine struct {
 	Ev      string  `json:"ev"`
@@ -159,6 +170,7 @@ type CronOpts struct {
 	DefaultTZ  string
 	Pols       []string
 	Delivered  bool
+	System     bool // composition: the real job queue controller starts the Jobs and the real jobconfig controller writes the status
 }
 
 type CR struct {
@@ -184,6 +196,8 @@ type CR struct {
 	cronCfg *configv1alpha1.CronExecutionConfig
 	admit   *sw.Admission
 	cc      *croncontroller.Context
+	xp      map[string]*sw.Proc // composed controllers (system mode): queue, indep, jobconfig
+	xq      map[string]string   // their queue names
 	specs   map[string]CSched
 }
 
@@ -294,6 +308,27 @@ func (c *CR) build() {
 	p2.Queues["cron"] = q
 	ctl2 := croncontroller.NewExecutionControl("cron", p2.CS.Furiko().ExecutionV1alpha1(), rec)
 	p2.Work["cron"] = reconciler.NewController(croncontroller.NewReconciler(cc2, ctl2, rec, st, nil), q).VerifWorkOnce
+	c.xp, c.xq = map[string]*sw.Proc{}, map[string]string{}
+	if c.O.System {
+		rec2 := record.NewFakeRecorder(1 << 20)
+		qp, ip := w.Proc("queue"), w.Proc("indep")
+		jq := jobqueuecontroller.NewContextWithRecorder(qp.Context(), rec2)
+		pq, iq := sw.NewQueue("perconfig"), sw.NewQueue("independent")
+		jq.VerifSetQueues(pq, iq)
+		qp.Queues["perconfig"], ip.Queues["independent"] = pq, iq
+		jobqueuecontroller.NewInformerWorker(jq)
+		qp.Work["perconfig"] = reconciler.NewController(jobqueuecontroller.NewPerConfigReconciler(jq, nil, jobqueuecontroller.NewJobControl(qp.CS.Furiko().ExecutionV1alpha1(), rec2)), pq).VerifWorkOnce
+		ip.Work["independent"] = reconciler.NewController(jobqueuecontroller.NewIndependentReconciler(jq, nil, jobqueuecontroller.NewJobControl(ip.CS.Furiko().ExecutionV1alpha1(), rec2)), iq).VerifWorkOnce
+		jp := w.Proc("jobconfig")
+		jcc := jobconfigcontroller.NewContextWithRecorder(jp.Context(), rec2)
+		jcq := sw.NewQueue("jobconfig")
+		jcc.VerifSetQueue(jcq)
+		jp.Queues["jobconfig"] = jcq
+		jobconfigcontroller.NewInformerWorker(jcc)
+		jp.Work["jobconfig"] = reconciler.NewController(jobconfigcontroller.NewReconciler(jcc, nil), jcq).VerifWorkOnce
+		c.xp["queue"], c.xp["indep"], c.xp["jobconfig"] = qp, ip, jp
+		c.xq["queue"], c.xq["indep"], c.xq["jobconfig"] = "perconfig", "independent", "jobconfig"
+	}
 	// informers start (relist), store recovers, cron worker initialises its heap from the lister
 	w.Inf.JobConfigs.Relist(w.API.List("jobconfigs"))
 	w.Inf.Jobs.Relist(w.API.List("jobs"))
@@ -448,7 +483,7 @@ func (c *CR) projJC(o runtime.Object) CJC {
 	}
 	x := o.(*execution.JobConfig)
 	p := CJC{Ex: true, Uid: string(x.UID), Ver: -1, Nbf: -1, Naf: -1, Lu: -1, Ls: csecp(x.Status.LastScheduled), Pol: string(x.Spec.Concurrency.Policy),
-		MaxC: int(x.Spec.Concurrency.GetMaxConcurrency())}
+		MaxC: int(x.Spec.Concurrency.GetMaxConcurrency()), StA: int(x.Status.Active), StQ: int(x.Status.Queued)}
 	if s := x.Spec.Schedule; s != nil {
 		p.En = !s.Disabled && s.Cron != nil
 		p.Lu = csecp(s.LastUpdated)
@@ -468,7 +503,7 @@ func (c *CR) projJC(o runtime.Object) CJC {
 func (c *CR) State() CState {
 	w := c.W
 	now := w.Clk.Now()
-	s := CState{Now: csec(now), Gen: c.gen, ChanJC: append([]string{}, c.chanJC...), Api: map[string]CJC{}, Cache: map[string]CJC{}, HIndex: map[string]int{},
+	s := CState{Now: csec(now), Gen: c.gen, ChanJC: append([]string{}, c.chanJC...), XReady: []string{}, XBusy: []string{}, Mutated: []string{}, Api: map[string]CJC{}, Cache: map[string]CJC{}, HIndex: map[string]int{},
 		Counter: map[string]int{}, HNames: []string{}, HPrio: []int{}, Wq: []string{}, Retry: []string{}, Jobs: []CJob{}, JCache: []string{}}
 	for i := 1; i <= c.O.NJC; i++ {
 		n := jcName(i)
@@ -519,6 +554,10 @@ func (c *CR) State() CState {
 	for _, o := range w.API.List("jobs") {
 		j := o.(*execution.Job)
 		cj := CJob{Name: cKeyID(j.Namespace + "/" + j.Name), Sched: -1, Started: !j.Status.StartTime.IsZero(), Term: j.Status.Phase.IsTerminal()}
+		if j.Spec.StartPolicy != nil {
+			cj.Pol = string(j.Spec.StartPolicy.ConcurrencyPolicy)
+		}
+		_, cj.Adm = jobutil.GetAdmissionErrorMessage(j)
 		owner := ""
 		nctl := 0
 		for _, r := range j.OwnerReferences {
@@ -561,7 +600,24 @@ func (c *CR) State() CState {
 	if c.O.MaxDownMin > 0 {
 		s.MaxDown = c.O.MaxDownMin * 60
 	}
-	s.Quiet = !s.InSync && len(s.Wq) == 0 && len(s.Retry) == 0 && s.Evq == 0 && s.Jevq == 0 && s.Chan == 0
+	s.System, s.XReady, s.XBusy = c.O.System, []string{}, []string{}
+	for _, n := range []string{"queue", "indep", "jobconfig"} {
+		xp := c.xp[n]
+		if xp == nil {
+			continue
+		}
+		xq := xp.Queues[c.xq[n]]
+		for _, k := range xq.Ready() {
+			s.XReady = append(s.XReady, n+":"+cKeyID(k))
+		}
+		for _, k := range sw.SortedKeys(xq.Retries) {
+			s.XReady = append(s.XReady, n+":retry:"+cKeyID(k))
+		}
+		if xp.Stp != nil {
+			s.XBusy = append(s.XBusy, n)
+		}
+	}
+	s.Quiet = !s.InSync && len(s.Wq) == 0 && len(s.Retry) == 0 && s.Evq == 0 && s.Jevq == 0 && s.Chan == 0 && len(s.XReady) == 0 && len(s.XBusy) == 0
 	return s
 }
 
@@ -751,6 +807,9 @@ func (c *CR) Apply(l Label) bool {
 		c.worker.Work()
 		c.chanN, c.chanJC = 0, nil
 	case "StatusSync": // the jobconfig controller's status write, reduced to lastScheduled (monotone maximum over its Jobs)
+		if c.O.System {
+			return false // the real jobconfig controller writes the status
+		}
 		name := jcName(l.C)
 		cur := c.jcObj(name)
 		if cur == nil {
@@ -780,6 +839,9 @@ func (c *CR) Apply(l Label) bool {
 			return x
 		})
 	case "JobStart", "JobFinish": // the queue / job controllers' writes: K = job name
+		if c.O.System && l.A == "JobStart" {
+			return false // the real queue controller starts Jobs
+		}
 		jk := strings.SplitN(cKeyReal(l.K), "/", 2)
 		o := w.API.Get("jobs", jk[0], jk[1])
 		if o == nil {
@@ -846,6 +908,33 @@ func (c *CR) Apply(l Label) bool {
 		seg := wp.Step(faultErr(l.F))
 		c.emit("Step", l, &seg, -1, nil)
 		return true
+	case "XSyncBegin", "XRetryFire", "XStep": // composed controllers: X = controller, K = key
+		xp := c.xp[l.X]
+		if xp == nil {
+			return false
+		}
+		xq := xp.Queues[c.xq[l.X]]
+		switch l.A {
+		case "XRetryFire":
+			if !xq.Retries[cKeyReal(l.K)] {
+				return false
+			}
+			xq.FireRetry(cKeyReal(l.K))
+		case "XSyncBegin":
+			if xp.Stp != nil || !xq.IsReady(cKeyReal(l.K)) {
+				return false
+			}
+			seg := xp.SyncBegin(c.xq[l.X], cKeyReal(l.K))
+			c.emit(l.A, l, &seg, -1, nil)
+			return true
+		case "XStep":
+			if xp.Stp == nil {
+				return false
+			}
+			seg := xp.Step(faultErr(l.F))
+			c.emit(l.A, l, &seg, -1, nil)
+			return true
+		}
 	case "Restart":
 		w.Crash()
 		c.gen++
@@ -879,6 +968,7 @@ func (c *CR) Drain(budget int) bool {
 			c.Apply(Label{A: "DeliverJC"})
 		case w.Inf.Jobs.Pending() > 0:
 			c.Apply(Label{A: "DeliverJob"})
+		case c.xDrainStep():
 		case len(q.Ready()) > 0:
 			c.Apply(Label{A: "SyncBegin", K: cKeyID(q.Ready()[0])})
 		case len(q.Retries) > 0:
@@ -888,6 +978,26 @@ func (c *CR) Drain(budget int) bool {
 			worked = true
 		default:
 			return true
+		}
+	}
+	return false
+}
+
+// xDrainStep advances the composed controllers by one step if any of them has work.
+func (c *CR) xDrainStep() bool {
+	for _, n := range []string{"queue", "indep", "jobconfig"} {
+		xp := c.xp[n]
+		if xp == nil {
+			continue
+		}
+		xq := xp.Queues[c.xq[n]]
+		switch {
+		case xp.Stp != nil:
+			return c.Apply(Label{A: "XStep", X: n})
+		case len(xq.Ready()) > 0:
+			return c.Apply(Label{A: "XSyncBegin", X: n, K: cKeyID(xq.Ready()[0])})
+		case len(xq.Retries) > 0:
+			return c.Apply(Label{A: "XRetryFire", X: n, K: cKeyID(sw.SortedKeys(xq.Retries)[0])})
 		}
 	}
 	return false
@@ -985,6 +1095,7 @@ func CronMain(args []string) (interface{}, error) {
 	out := fs.String("out", "", "trace output")
 	sched := fs.String("sched", "", "schedules file")
 	std := fs.Bool("std", false, "random mode: only the specification's minute-step schedules, whole-minute clock")
+	system := fs.Bool("system", false, "random mode: compose with the real job queue and jobconfig controllers")
 	if err := fs.Parse(args); err != nil {
 		return nil, err
 	}
@@ -1019,6 +1130,7 @@ func CronMain(args []string) (interface{}, error) {
 			if *std {
 				o.Format, o.DefaultTZ = "", ""
 			}
+			o.System = *system
 			c := NewCR(o, tr, r)
 			c.emit("Reset", Label{A: "Reset"}, nil, -1, nil)
 			pols := []string{"Allow", "Allow", "Forbid", "Enqueue"}
@@ -1066,6 +1178,27 @@ func CronMain(args []string) (interface{}, error) {
 				}
 				for _, k := range sw.SortedKeys(q.Retries) {
 					add(Label{A: "RetryFire", K: cKeyID(k)}, 1)
+				}
+				for _, n := range []string{"queue", "indep", "jobconfig"} {
+					xp := c.xp[n]
+					if xp == nil {
+						continue
+					}
+					xq := xp.Queues[c.xq[n]]
+					if xp.Stp != nil {
+						l := Label{A: "XStep", X: n}
+						if rng.Intn(10) == 0 {
+							l.F = []string{"error", "conflict", "timeout"}[rng.Intn(3)]
+						}
+						add(l, 3)
+					} else {
+						for _, k := range xq.Ready() {
+							add(Label{A: "XSyncBegin", X: n, K: cKeyID(k)}, 2)
+						}
+					}
+					for _, k := range sw.SortedKeys(xq.Retries) {
+						add(Label{A: "XRetryFire", X: n, K: cKeyID(k)}, 1)
+					}
 				}
 				if w.Inf.JobConfigs.Pending() > 0 {
 					add(Label{A: "DeliverJC"}, 4)
@@ -1135,7 +1268,11 @@ func CronMain(args []string) (interface{}, error) {
 					continue // e.g. StatusSync with nothing to write
 				}
 			}
-			if !c.Finale(800) {
+			budget := 800
+			if o.System {
+				budget = 6000 // every Job also passes through the queue and jobconfig controllers
+			}
+			if !c.Finale(budget) {
 				sum.DrainFailed++
 			}
 			sum.Runs++
